@@ -147,6 +147,15 @@ func (s rdNumber[T]) Get() (T, bool) {
 	return s.reader.load(s.txn.cursor)
 }
 
+// present returns the rows of the selection that hold a value in the given chunk,
+// without narrowing the selection of the transaction itself.
+func (s rdNumber[T]) present(chunk commit.Chunk, index bitmap.Bitmap) bitmap.Bitmap {
+	out := make(bitmap.Bitmap, len(index))
+	copy(out, index)
+	out.And(s.reader.chunks[chunk].fill)
+	return out
+}
+
 // Sum computes a sum of the column values selected by this transaction
 func (s rdNumber[T]) Sum() (sum T) {
 	s.txn.initialize()
@@ -164,6 +173,7 @@ func (s rdNumber[T]) Avg() float64 {
 	s.txn.initialize()
 	s.txn.rangeRead(func(chunk commit.Chunk, index bitmap.Bitmap) {
 		if int(chunk) < len(s.reader.chunks) {
+			index = s.present(chunk, index)
 			sum += bitmap.Sum(s.reader.chunks[chunk].data, index)
 			ct += index.Count()
 		}
@@ -176,6 +186,7 @@ func (s rdNumber[T]) Min() (min T, ok bool) {
 	s.txn.initialize()
 	s.txn.rangeRead(func(chunk commit.Chunk, index bitmap.Bitmap) {
 		if int(chunk) < len(s.reader.chunks) {
+			index = s.present(chunk, index)
 			if v, hit := bitmap.Min(s.reader.chunks[chunk].data, index); hit && (v < min || !ok) {
 				min = v
 				ok = true
@@ -190,6 +201,7 @@ func (s rdNumber[T]) Max() (max T, ok bool) {
 	s.txn.initialize()
 	s.txn.rangeRead(func(chunk commit.Chunk, index bitmap.Bitmap) {
 		if int(chunk) < len(s.reader.chunks) {
+			index = s.present(chunk, index)
 			if v, hit := bitmap.Max(s.reader.chunks[chunk].data, index); hit && (v > max || !ok) {
 				max = v
 				ok = true
